@@ -23,13 +23,30 @@ PAY_KINDS = ["f", "i", "b", "s", "d", "o", "td", "t", "ob"]
 OPS = ["left", "left", "inner", "semi", "anti", "full", "full"]
 
 
+MIXED_PAIRS = [("i", "f"), ("f", "i"), ("i", "i8"), ("i8", "i"), ("i", "u8"), ("u8", "i"), ("f", "f32"), ("f32", "f"),
+               ("i32", "i"), ("f", "i8")]
+MIXED_POOL = {"i": [0, 1, 2, 3, 300, -1, 44, 255, 2**31 + 1], "f": [gen.NAN, 0.0, 1.0, 1.5, 2.0, 2.5, 300.0, 0.1, -1.0],
+              "i8": [0, 1, 2, 3, 44, -1], "u8": [0, 1, 2, 3, 44, 255], "f32": [gen.NAN, 0.0, 1.0, 1.5, 2.0, 0.1],
+              "i32": [0, 1, 2, 3, -2**31 + 1, 300]}
+
+
 @st.composite
 def _plan(draw, max_rows):
     nl = draw(gen.nrows(max_rows))
     nr = draw(gen.nrows(max_rows))
     nk = draw(st.sampled_from([1, 1, 1, 2]))
     left, right, by = [], [], []
-    for j in range(nk):
+    mixed = draw(st.integers(0, 7)) == 0
+    if mixed:
+        # one numeric key whose dtype differs between the sides; values from pools where equality across the two
+        # dtypes is unambiguous, some of them not representable in the other side's dtype (1.5, 300, -1, float32(0.1))
+        nk = 1
+        lkind, rkind = draw(st.sampled_from(MIXED_PAIRS))
+        rn = "k0" if draw(st.booleans()) else "r0"
+        left.append({"name": "k0", "kind": lkind, "vals": [draw(st.sampled_from(MIXED_POOL[lkind])) for _ in range(nl)]})
+        right.append({"name": rn, "kind": rkind, "vals": [draw(st.sampled_from(MIXED_POOL[rkind])) for _ in range(nr)]})
+        by.append(["k0", rn])
+    for j in range(0 if mixed else nk):
         kind = draw(st.sampled_from(KEY_KINDS))
         mode = draw(st.sampled_from(["tight", "tight", "tight", "pool"]))
         ln = f"k{j}"
@@ -37,6 +54,9 @@ def _plan(draw, max_rows):
         left.append({"name": ln, "kind": kind, "vals": draw(gen.values(kind, nl, mode=mode, na="asis"))})
         right.append({"name": rn, "kind": kind, "vals": draw(gen.values(kind, nr, mode=mode, na="asis"))})
         by.append([ln, rn])
+        if rn != ln and draw(st.integers(0, 2)) == 0:
+            # the right frame owns an ordinary column named like the left key (after its real key)
+            right.append({"name": ln, "kind": kind, "vals": draw(gen.values(kind, nr, mode=mode, na="asis"))})
     for j in range(draw(st.integers(0, 2))):
         kind = draw(st.sampled_from(PAY_KINDS))
         left.append({"name": f"a{j}", "kind": kind, "vals": draw(gen.values(kind, nl))})
@@ -50,6 +70,10 @@ def _plan(draw, max_rows):
     right = [right[i] for i in draw(st.permutations(range(len(right))))]
     plan = {"left": {"n": nl, "cols": left}, "right": {"n": nr, "cols": right}, "by": by,
             "op": draw(st.sampled_from(OPS))}
+    if mixed:
+        plan["mixed"] = True
+        plan["op"] = draw(st.sampled_from(["left", "inner", "semi", "anti"]))
+        return plan
     if nl and nr and draw(st.integers(0, 3)) == 0:
         # history: join, edit a key cell of the same right (or left) frame in place, join again
         edits = []
@@ -75,6 +99,10 @@ def _keys(plan):
     rc = {c["name"]: c for c in plan["right"]["cols"]}
     lk = [[build.pcell(lc[a]["kind"], v) for v in lc[a]["vals"]] for a, b in plan["by"]]
     rk = [[build.pcell(rc[b]["kind"], v) for v in rc[b]["vals"]] for a, b in plan["by"]]
+    if plan.get("mixed"):
+        # keys of different numeric dtypes are equal when their values are (1 == 1.0); all pool values are exact floats
+        lk = [[None if c is None else float(c) for c in col] for col in lk]
+        rk = [[None if c is None else float(c) for c in col] for col in rk]
     return lk, rk
 
 
